@@ -56,4 +56,19 @@ theorem runTop_sim (f : Nat) (P : Prog) (ls : List Line) : ∀ (s : St) (t : Spe
       simp only [Spec.runTop, ht1]
       exact ht'
 
+/-! ## definitions used by the property statements -/
+
+/-- a concrete program with a re-entrant emission: slot body 1 disconnects its own connection, emits
+    the signal again and asks for its size -/
+def exProg : Prog :=
+  { bodies := [(1, [⟨"disc 1", .disc 1⟩, ⟨"emit 1 0", .emit 1 0 .sum false⟩, ⟨"size? 1", .sizeq 1⟩])],
+    top := [⟨"newG 1 V", .newG 1 (some .V)⟩, ⟨"connfn 1 1 fn 1", .connfn 1 1 (.fn 1) false⟩,
+            ⟨"connfn 2 1 fn 2", .connfn 2 1 (.fn 2) true⟩, ⟨"emit 1 7", .emit 1 7 .sum false⟩] }
+
+/-- the slot invocations logged in a trace: `(depth, functor, argument)` in order (newest first) -/
+def calls (tr : List Event) : List (Nat × Nat × Nat) :=
+  tr.filterMap (fun e => match e with
+    | .call d fid a => some (d, fid, a)
+    | .res _ _ _ => none)
+
 end Sigc.Refine
